@@ -153,11 +153,36 @@ func (w *c11World) connection(idx int, rng interface{ Intn(int) int }) {
 			r.Violation(fmt.Sprintf("not-refused:%s:%d", label, f.code()), fmt.Sprintf("request must be refused%s but got %d: %s", map[bool]string{true: fmt.Sprintf(" with %d", want), false: ""}[want != 0], f.code(), f.Raw), wit(nil))
 		}
 	}
+	// every fifth connection is directed: handshake, good login, then requests naming the session's own id in
+	// extra.obo with authlevel root (a non-root session may not choose a user or a level, its own included)
+	selfObo := idx%5 == 4
+	if selfObo && steps < 6 {
+		steps = 6
+	}
 	for i := 0; i < steps; i++ {
 		k := rng.Intn(20)
 		var extra map[string]any
 		obo := ""
-		if rng.Intn(8) == 0 {
+		forceVariant := ""
+		if selfObo {
+			switch {
+			case i == 0:
+				k = 0
+			case i == 1:
+				k, forceVariant = 5, "good"
+			case !st.uid.IsZero() && st.lvl != auth.LevelRoot && rng.Intn(3) != 0:
+				obo = st.uid.UserId()
+				extra = map[string]any{"obo": obo}
+				if rng.Intn(4) != 0 {
+					extra["authlevel"] = []string{"root", "auth"}[rng.Intn(2)]
+				}
+				r.Hit("own_id_obo")
+				if k < 10 {
+					k = 10 + rng.Intn(10)
+				}
+			}
+		}
+		if !selfObo && rng.Intn(8) == 0 {
 			obo = w.ok2.uid.UserId()
 			extra = map[string]any{"obo": obo}
 			if rng.Intn(2) == 0 {
@@ -174,6 +199,9 @@ func (w *c11World) connection(idx int, rng interface{ Intn(int) int }) {
 		case k < 4: // hi
 			vers := []string{"0.22", "0.22", "0.15", "abc", "0.21", ""}
 			v := vers[rng.Intn(len(vers))]
+			if selfObo && i == 0 {
+				v = "0.22"
+			}
 			id, ctrls := do("hi", map[string]any{"ver": v, "ua": "c11"}, extra)
 			f := replyFor(id, ctrls)
 			note("hi ver=%q obo=%s -> %s", v, obo, codeStr(f))
@@ -200,6 +228,9 @@ func (w *c11World) connection(idx int, rng interface{ Intn(int) int }) {
 		case k < 10: // login
 			variants := []string{"good", "badpw", "unknown", "token", "expired", "nologin", "tampered", "susp", "deleted", "scheme", "root", "unval", "good"}
 			v := variants[rng.Intn(len(variants))]
+			if forceVariant != "" {
+				v = forceVariant
+			}
 			body := map[string]any{"scheme": "basic"}
 			var acct *c11Acct
 			switch v {
